@@ -134,7 +134,7 @@ def run(ck: Check, repo: Repo) -> None:
             if isinstance(x, ast.BinOp) and isinstance(x.op, ast.Pow) and "gamma" in ast.unparse(x.left):
                 pows.append((n, x))
     ck.floor("C10.2", len(pows), 1, "gamma ** k in the window loop")
-    start, slice_lo, counter = _enumerate_shape(loop.ast)
+    start, slice_lo, counter = _enumerate_shape(loop.ast, cfg, loop)
     for n, x in pows:
         e = tb.term(x.right, n)
         base = tb.term(x.left, n)
@@ -263,7 +263,7 @@ def _feeds(cfg: CFG, node: Node, loop: Node) -> bool:
     return any(nm in used and node in cfg.defs_reaching(loop, nm) for nm in names)
 
 
-def _enumerate_shape(loop: ast.For) -> Tuple[int, int, Optional[str]]:
+def _enumerate_shape(loop: ast.For, cfg: Optional[CFG] = None, node: Optional[Node] = None) -> Tuple[int, int, Optional[str]]:
     """(enumerate start, slice start of the iterated window, counter variable name)."""
     it = loop.iter
     start = 0
@@ -278,9 +278,13 @@ def _enumerate_shape(loop: ast.For) -> Tuple[int, int, Optional[str]]:
             counter = loop.target.elts[0].id
         it = it.args[0]
     lo = 0
-    for x in ast.walk(it):
-        if isinstance(x, ast.Subscript) and isinstance(x.slice, ast.Slice):
-            lo = const_value(x.slice.lower) or 0
+    exprs = [it]
+    if isinstance(it, ast.Name) and cfg is not None and node is not None:
+        exprs = [v for v in (cfg.value_of_def(d, it.id) for d in cfg.defs_reaching(node, it.id)) if v is not None]
+    for ex in exprs:
+        for x in ast.walk(ex):
+            if isinstance(x, ast.Subscript) and isinstance(x.slice, ast.Slice):
+                lo = const_value(x.slice.lower) or 0
     return int(start), int(lo), counter
 
 
@@ -366,3 +370,31 @@ def _alignment(ck: Check, repo: Repo, add: Fn, window: str) -> None:
             # same iteration: the definition dominates the use
             ok = ok and any(tcfg.dominates(d, n) for d in defs)
         ck.ob("C10.5", tr, c, ok, "the n-step batch is drawn with the indices of the 1-step batch sampled just before")
+
+
+_RBF = "agilerl/components/replay_buffer.py"
+_TOP = "agilerl/training/train_off_policy.py"
+VARIANTS = [
+    ("first-done-ignored", _RBF, "        if first_transition[self.done_key].bool().any():\n            return first_transition\n", "", "fire", "C10.1"),
+    ("first-done-inverted", _RBF, "        if first_transition[self.done_key].bool().any():\n            return first_transition\n",
+     "        if not first_transition[self.done_key].bool().any():\n            return first_transition\n", "fire", "C10.1"),
+    ("first-done-ifexp-ok", _RBF, "        if first_transition[self.done_key].bool().any():\n            return first_transition\n\n        # Get the last next_state and done flag\n        for i, transition in enumerate(list(self.n_step_buffer)[1:]):",
+     "        later = [] if first_transition[self.done_key].bool().any() else list(self.n_step_buffer)[1:]\n        for i, transition in enumerate(later):", "silent", None),
+    ("break-removed", _RBF, "            if done.bool().any():  # Stop if episode terminated\n                break\n", "", "fire", "C10.1"),
+    ("break-on-not-done", _RBF, "            if done.bool().any():  # Stop if episode terminated", "            if not done.bool().any():", "fire", "C10.1"),
+    ("exponent-off-by-one", _RBF, "n_step_reward += reward * (self.gamma ** (i + 1))", "n_step_reward += reward * (self.gamma ** i)", "fire", "C10.2"),
+    ("exponent-start-ok", _RBF, "for i, transition in enumerate(list(self.n_step_buffer)[1:]):\n            # Add discounted reward\n            reward: torch.Tensor = transition[self.reward_key]\n            n_step_reward += reward * (self.gamma ** (i + 1))",
+     "for i, transition in enumerate(list(self.n_step_buffer)[1:], start=1):\n            # Add discounted reward\n            reward: torch.Tensor = transition[self.reward_key]\n            n_step_reward += reward * (self.gamma ** i)", "silent", None),
+    ("next-obs-from-first", _RBF, "next_obs: torch.Tensor = transition[self.ns_key]", "next_obs: torch.Tensor = self.n_step_buffer[0][self.ns_key]", "fire", "C10.3"),
+    ("done-store-after-break", _RBF, "            first_transition[self.done_key] = done.clone()\n\n            if done.bool().any():  # Stop if episode terminated\n                break\n",
+     "            if done.bool().any():  # Stop if episode terminated\n                break\n            first_transition[self.done_key] = done.clone()\n", "fire", "C10.3"),
+    ("no-clone-of-first", _RBF, "first_transition: TensorDict = self.n_step_buffer[0].clone()", "first_transition: TensorDict = self.n_step_buffer[0]", "fire", "C10.4"),
+    ("no-second-clone-ok", _RBF, "        n_step_reward = n_step_reward.clone()\n", "", "silent", None),
+    ("accumulate-on-window-reward", _RBF, "n_step_reward: torch.Tensor = first_transition[self.reward_key]\n        n_step_reward = n_step_reward.clone()",
+     "n_step_reward: torch.Tensor = self.n_step_buffer[0][self.reward_key]", "fire", "C10.4"),
+    ("return-newest", _RBF, "        super().add(n_step_data)\n        return self.n_step_buffer[0]", "        super().add(n_step_data)\n        return self.n_step_buffer[-1]", "fire", "C10.5"),
+    ("return-raw-data", _RBF, "        super().add(n_step_data)\n        return self.n_step_buffer[0]", "        super().add(n_step_data)\n        return data", "fire", "C10.5"),
+    ("store-before-full", _RBF, "if len(self.n_step_buffer) < self.n_step:", "if len(self.n_step_buffer) < self.n_step - 1:", "fire", "C10.5"),
+    ("train-adds-raw", _TOP, "                    if one_step_transition is not None:\n                        memory.add(one_step_transition)", "                    if one_step_transition is not None:\n                        memory.add(transition)", "fire", "C10.5"),
+    ("train-adds-always", _TOP, "                    if one_step_transition is not None:\n                        memory.add(one_step_transition)", "                    memory.add(transition)", "fire", "C10.5"),
+]
